@@ -157,10 +157,10 @@ CLAIMS["C16"] = dict(
     category="other",
     text="Unbounded contract proofs (one group per snapshot table, ghost cell) that _save copies EVERY table a snapshot graph exposes -- receivers, "
          "count, distance, weight (column 0 when the snapshot is single-flow, also when the live graph is wider), donors (all columns), donors "
-         "count, dfs and bfs orders and levels -- that the source is outside the write frame, that the elevation snapshot equals the elevation "
+         "count, dfs and bfs orders and levels, and the inputs of basins() / pits() / kernels: mask, its flag and the base-level set (finding F14, repaired in /repo) -- that the source is outside the write frame, that the elevation snapshot equals the elevation "
          "passed and that save() dispatches on the operator's flags; every mutating call on a snapshot graph is refused (guards); basins() "
          "recomputes in every call. Equivalence with 'a graph running only the prefix' beyond table equality is the composition of the other "
-         "properties' functional contracts (unmechanised); mask/base levels of snapshot graphs are not copied by design and undecided.",
+         "properties' functional contracts (unmechanised).",
     note="xtensor whole-array / column-view assignment modelled as element-wise loops with their own contracts; one bounded group (<= 2 nodes) "
          "judges explicit-loop rewrites of the column copy.",
 )
